@@ -388,7 +388,7 @@ func c04ScnLindell22(cfg, spec string, quorum []ID, quick int) c04Scn {
 }
 
 func c04ScnBoldyreva(cfg, spec string, quorum []ID, quick int) c04Scn {
-	return c04Scn{proto: "boldyreva", cfg: cfg, quick: quick, run: func(seed int64, base uint64, hook Hook) *c04Res {
+	return c04Scn{proto: "boldyreva", cfg: cfg, quick: quick, curve: "bls", run: func(seed int64, base uint64, hook Hook) *c04Res {
 		ac := mustAccess(spec)
 		dealt := runTrustedDealer(cBLSG1, ac, NewRng(seed, base+2))
 		if dealt.Shards == nil {
@@ -432,34 +432,58 @@ func c04ScnBoldyreva(cfg, spec string, quorum []ID, quick int) c04Scn {
 
 var _ = session.NewContext
 
-// c04Scenarios: 3 parties; `a` = 2-of-3 over IDs 1,2,3, `b` = 3-of-3 over sparse IDs.
+func (s c04Scn) rel(n int) c04Scn { s.quickRel = n; return s }
+
+// c04Scenarios. Ideal structures (one MSP row per party): `a` = 2-of-3 over IDs 1,2,3, `b` = 3-of-3 over
+// sparse IDs. NON-IDEAL structures (a party owns several MSP rows, so shares, partial signatures and
+// sub-shares are vectors): `n` = CNF with maximal unqualified sets {1},{2},{3} (2-of-3, two rows per
+// party), `ns` = the same over sparse IDs 2,5,9, `m` = CNF {1,2},{1,3},{4} over 4 parties (party 1 owns
+// one row, the others two; no holder is in every maximal unqualified set), `e` = the threshold-gate
+// tree or(and(1,2),and(2,3),and(1,3)). Quorums: minimal (`…2`) and non-minimal (`…3`).
 func c04Scenarios(thorough bool) []c04Scn {
 	a, b := "th:2:1,2,3", "th:3:2,5,9"
 	ia, ib := []ID{1, 2, 3}, []ID{2, 5, 9}
+	n, ns, m, e := "cnf:1|2|3", "cnf:2|5|9", "cnf:1,2|1,3|4", "bool:or(and(1,2),and(2,3),and(1,3))"
 	s := []c04Scn{
-		c04ScnSession("a", ia, 40),
-		c04ScnSession("b", ib, 15),
-		c04ScnDKG("gennaro", "a", a, 50),
-		c04ScnDKG("gennaro", "b", b, 25),
-		c04ScnDKG("canetti", "a", a, 50),
-		c04ScnDKG("canetti", "b", b, 25),
-		c04ScnHJKY("a", a, 30),
-		c04ScnHJKY("b", b, 15),
-		c04ScnRedistribute("refresh", a, ia, a, 0, 45),
-		c04ScnRedistribute("grow", a, ia, "th:2:1,2,3,4", 0, 35),
-		c04ScnRedistribute("recover-b", b, ib, "th:3:2,5,9", 0, 20),
-		c04ScnLindell22("a2", a, []ID{1, 3}, 30),
-		c04ScnLindell22("a3", a, ia, 35),
-		c04ScnLindell22("b", b, ib, 20),
-		c04ScnDKLs23("softspoken", "a2", a, []ID{1, 3}, 45, 400),
-		c04ScnDKLs23("softspoken", "a3", a, ia, 12, 400),
-		c04ScnBoldyreva("a2", a, []ID{1, 2}, 12),
-		c04ScnBoldyreva("a3", a, ia, 12),
+		c04ScnSession("a", ia, 90),
+		c04ScnSession("b", ib, 30),
+		c04ScnDKG("gennaro", "a", a, 40).rel(6),
+		c04ScnDKG("gennaro", "b", b, 15),
+		c04ScnDKG("gennaro", "n", n, 40).rel(30),
+		c04ScnDKG("gennaro", "m", m, 15).rel(10),
+		c04ScnDKG("canetti", "a", a, 40).rel(6),
+		c04ScnDKG("canetti", "b", b, 15),
+		c04ScnDKG("canetti", "ns", ns, 40).rel(30),
+		c04ScnHJKY("a", a, 25).rel(4),
+		c04ScnHJKY("b", b, 10),
+		c04ScnHJKY("n", n, 25).rel(20),
+		c04ScnRedistribute("refresh", a, ia, a, 0, 40).rel(6),
+		c04ScnRedistribute("grow", a, ia, "th:2:1,2,3,4", 0, 25),
+		c04ScnRedistribute("recover-b", b, ib, "th:3:2,5,9", 0, 15),
+		c04ScnRedistribute("refresh-n", n, ia, n, 0, 35).rel(30),
+		c04ScnRedistribute("to-e", a, ia, e, 0, 15).rel(10),
+		c04ScnLindell22("a2", a, []ID{1, 3}, 25).rel(4),
+		c04ScnLindell22("a3", a, ia, 30).rel(4),
+		c04ScnLindell22("b", b, ib, 15),
+		c04ScnLindell22("n2", n, []ID{1, 2}, 15).rel(10),
+		c04ScnLindell22("ns3", ns, ib, 25).rel(20),
+		c04ScnDKLs23("softspoken", "a2", a, []ID{1, 3}, 40, 400).rel(8),
+		c04ScnDKLs23("softspoken", "a3", a, ia, 10, 400),
+		c04ScnDKLs23("softspoken", "n2", n, []ID{2, 3}, 12, 300).rel(4),
+		c04ScnBoldyreva("a2", a, []ID{1, 2}, 6),
+		c04ScnBoldyreva("a3", a, ia, 5),
+		c04ScnBoldyreva("n2", n, []ID{1, 2}, 8).rel(6),
+		c04ScnBoldyreva("ns3", ns, ib, 5).rel(9),
 	}
 	if thorough {
 		s = append(s,
 			c04ScnDKLs23("softspoken", "b", b, ib, 0, 300),
 			c04ScnDKLs23("bbot", "a2", a, []ID{2, 3}, 0, 120),
+			c04ScnDKG("canetti", "m", m, 0),
+			c04ScnHJKY("m", m, 0),
+			c04ScnLindell22("m", m, []ID{1, 2, 4}, 0),
+			c04ScnBoldyreva("e2", e, []ID{2, 3}, 0),
+			c04ScnBoldyreva("m", m, []ID{1, 2, 4}, 0),
 		)
 	}
 	return s
